@@ -17,6 +17,23 @@ variable (cm : CM)
 
 def bytesOf (s : String) : List UInt8 := s.toUTF8.toList
 
+/-- the keywords as byte lists (literal, so that proofs can compute with them) -/
+def kw_directive : List UInt8 := [100, 105, 114, 101, 99, 116, 105, 118, 101]    -- "directive"
+def kw_enum : List UInt8 := [101, 110, 117, 109]    -- "enum"
+def kw_extend : List UInt8 := [101, 120, 116, 101, 110, 100]    -- "extend"
+def kw_fragment : List UInt8 := [102, 114, 97, 103, 109, 101, 110, 116]    -- "fragment"
+def kw_implements : List UInt8 := [105, 109, 112, 108, 101, 109, 101, 110, 116, 115]    -- "implements"
+def kw_input : List UInt8 := [105, 110, 112, 117, 116]    -- "input"
+def kw_interface : List UInt8 := [105, 110, 116, 101, 114, 102, 97, 99, 101]    -- "interface"
+def kw_mutation : List UInt8 := [109, 117, 116, 97, 116, 105, 111, 110]    -- "mutation"
+def kw_on : List UInt8 := [111, 110]    -- "on"
+def kw_query : List UInt8 := [113, 117, 101, 114, 121]    -- "query"
+def kw_scalar : List UInt8 := [115, 99, 97, 108, 97, 114]    -- "scalar"
+def kw_schema : List UInt8 := [115, 99, 104, 101, 109, 97]    -- "schema"
+def kw_subscription : List UInt8 := [115, 117, 98, 115, 99, 114, 105, 112, 116, 105, 111, 110]    -- "subscription"
+def kw_type : List UInt8 := [116, 121, 112, 101]    -- "type"
+def kw_union : List UInt8 := [117, 110, 105, 111, 110]    -- "union"
+
 /-- `args.add` / `fields.add` / `values.add`: duplicate detection by name -/
 def addName (names : List (List UInt8)) (n : List UInt8) : Option (List (List UInt8)) :=
   if names.contains n then none else some (n :: names)
@@ -45,9 +62,7 @@ def readArg (p : P) : (List UInt8 × Option Err) × P :=
             match skipSp cm p with
             | (none, p) => ((tok, some ioErr), p)
             | (some b, p) =>
-              let r : Option Err × P :=
-                if b == 61 then readValue cm p.vfuel (reRead p) else (none, p)
-              match r with
+              match optDefault cm b p with
               | (some e, p) => ((tok, some e), p)
               | (none, p) =>
                 let r := dirLoop cm p
@@ -302,7 +317,7 @@ def readImplements (p : P) : Option Err × P :=
     else
       match readToken cm p with
       | ((tok, ioe), p) =>
-        let e0 : Option Err := if tok != bytesOf "implements" then some p.perr else (if ioe then some ioErr else none)
+        let e0 : Option Err := if tok != kw_implements then some p.perr else (if ioe then some ioErr else none)
         match e0 with
         | some e => (some e, p)
         | none =>
@@ -391,7 +406,7 @@ def readDirective (p : P) : (List UInt8 × Option Err) × P :=
           match readToken cm p with
           | ((_, true), p) => ((t, some ioErr), p)
           | ((tok, false), p) =>
-            if tok != bytesOf "on" then ((t, some p.perr), p)
+            if tok != kw_on then ((t, some p.perr), p)
             else let r := onLoop cm p.vfuel p 0; ((t, r.1), r.2)
 
 structure Def where
@@ -406,14 +421,14 @@ structure Cfg where
 
 /-- one definition after its keyword -/
 def readDef (kw : List UInt8) (p : P) : Option ((String × (List UInt8 × Option Err)) × P) :=
-  if kw == bytesOf "directive" then some (let r := readDirective cm p; (("directive", r.1), r.2))
-  else if kw == bytesOf "enum" then some (let r := readEnum cm p; (("enum", r.1), r.2))
-  else if kw == bytesOf "input" then some (let r := readInput cm p; (("input", r.1), r.2))
-  else if kw == bytesOf "interface" then some (let r := readInterface cm p; (("interface", r.1), r.2))
-  else if kw == bytesOf "scalar" then some (let r := readScalar cm p; (("scalar", r.1), r.2))
-  else if kw == bytesOf "schema" then some (let r := readSchema cm p; (("schema", r.1), r.2))
-  else if kw == bytesOf "type" then some (let r := readObject cm p; (("type", r.1), r.2))
-  else if kw == bytesOf "union" then some (let r := readUnion cm p; (("union", r.1), r.2))
+  if kw == kw_directive then some (let r := readDirective cm p; (("directive", r.1), r.2))
+  else if kw == kw_enum then some (let r := readEnum cm p; (("enum", r.1), r.2))
+  else if kw == kw_input then some (let r := readInput cm p; (("input", r.1), r.2))
+  else if kw == kw_interface then some (let r := readInterface cm p; (("interface", r.1), r.2))
+  else if kw == kw_scalar then some (let r := readScalar cm p; (("scalar", r.1), r.2))
+  else if kw == kw_schema then some (let r := readSchema cm p; (("schema", r.1), r.2))
+  else if kw == kw_type then some (let r := readObject cm p; (("type", r.1), r.2))
+  else if kw == kw_union then some (let r := readUnion cm p; (("union", r.1), r.2))
   else none
 
 /-- from label `TOP`: read the keyword token and dispatch; `x` = an `extend` is pending.
@@ -427,7 +442,7 @@ def top (cfg : Cfg) : Nat → P → Bool → ((Option Def × Bool) × Option Err
       if tok.isEmpty then
         if !cfg.emptyTokenSpins && p.onDeck != 0 && p.onDeck != 34 then (((none, x), some p.perr), p)
         else (((none, x), none), p)
-      else if tok == bytesOf "extend" then top cfg n p true
+      else if tok == kw_extend then top cfg n p true
       else
         match readDef cm tok p with
         | none => (((none, x), some p.perr), p)
